@@ -259,10 +259,10 @@ struct Family {
 static void make_family(Family& fam, Rng& r) {
   const bool T = G().thorough();
   const uint64_t seed = fam.seed = r.chance(0.5) ? DEFAULT_SEED : r.next();
-  const bool big = fam.big = T && r.chance(0.01);
+  const bool big = fam.big = T && r.chance(0.003);
   const int nin = fam.nin = big ? static_cast<int>(r.range(2, 3)) : (r.chance(0.25) ? 2 : (r.chance(0.45) ? 3 : (r.chance(0.75) ? 4 : 5)));
   const uint64_t base = fam.base = r.next() & 0xffffffffffULL;
-  const int maxlg = big ? 16 : (T ? 11 : 9);
+  const int maxlg = big ? (r.chance(0.2) ? 16 : 14) : (T ? 11 : 9);
   const int minlg = big ? 12 : 5;
   std::vector<std::unique_ptr<Input>>& ins = fam.ins;
   std::string& desc = fam.desc;
